@@ -225,6 +225,12 @@ def check_child_cursors(ctx, where, node, label, ci=None):
                 else:
                     ctx.undecided(rule, where, st, 'cannot find the cursor argument', e.lineno, clause='d')
                 continue
+            if isinstance(off, ast.Call):
+                f2 = off.func
+                n2 = f2.attr if isinstance(f2, ast.Attribute) else f2.id if isinstance(f2, ast.Name) else None
+                if n2 in ('unpack', 'unpack_impl') and not (isinstance(f2, ast.Attribute) and (canon(f2.value) == 'struct' or (isinstance(f2.value, ast.Attribute) and f2.value.attr in struct_object_attrs(repo)))):
+                    ctx.holds(rule, where, st, 'child parsed at the cursor the previous child returned', e.lineno, clause='d')
+                    continue
             form = lin(off)
             cur = [k for k in form if k != 1 and (k == 'offset' or str(k).startswith('offset@phi'))]
             rest = {k: v for k, v in form.items() if k not in cur}
